@@ -30,7 +30,7 @@ from .taylor_cell import entry_bounds, lie_consumers, record_series, stub_series
 
 U = fperr.U
 EPS = 1e-3
-A_MAX = 3.2
+A_MAX = 6.0
 ETA_SUB = 2.5e-3
 REL_IN = 64 * U  # relative perturbation of a series argument assumed by the per-entry tables (checked per shell)
 TARGET = 1e-9
@@ -647,7 +647,7 @@ class JacFiniteJob:
         return r.status == REFUTED, r.detail
 
 
-NAN_AT_IDENTITY = {"SO3Dcm.log(exp)": 1e-7}  # the quaternion logarithms were repaired in round 2 (whole ball incl. zero)
+NAN_AT_IDENTITY = {}  # the quaternion and DCM logarithms were repaired in round 2 (whole ball incl. zero)
 
 
 def jac_jobs():
